@@ -90,3 +90,17 @@ func badFuncField(h holder) int { return h.f() }
 type other interface{ Do() }
 
 func badIface(o other) { o.Do() }
+
+func badFloatAdd(a, b float64) float64 { return a + b }
+
+func badFloatLess(a, b float64) bool { return a < b }
+
+func badFloatNarrow(a float64) float32 { return float32(a) }
+
+// badMutualB (bad_helpers.go) calls back: mutual recursion.
+func badMutualA(n int) int {
+	if n == 0 {
+		return 0
+	}
+	return badMutualB(n - 1)
+}
